@@ -54,6 +54,7 @@ func runVoteJob(m *model, j voteJob) jobResult {
 	res := jobResult{r: r, in: in}
 	seen := map[string]bool{}
 	for _, seq := range j.seqs {
+		pick0 := r.pick
 		mm, done, trace := r.run(seq, func(ei int) *mAct { return m.acts[ei] })
 		res.behaviours++
 		res.steps += done
@@ -67,7 +68,14 @@ func runVoteJob(m *model, j voteJob) jobResult {
 			if len(trace) > 60 {
 				trace = append([]string{fmt.Sprintf("... %d earlier steps ...", len(trace)-60)}, trace[len(trace)-60:]...)
 			}
-			res.record = map[string]interface{}{"instantiation": in.describe(), "actions": trace, "failing_step": done, "mismatch": mm.desc}
+			// the replay part: the behaviour up to the failing step with the model's expected states
+			var acts, states []string
+			for _, ei := range seq[:done] {
+				acts = append(acts, mbtCompact(m.g.Edges[ei].Act))
+				states = append(states, mbtCompact(m.g.Edges[ei].ToSt))
+			}
+			res.record = map[string]interface{}{"kind": "votes", "instantiation": in.describe(), "actions": trace, "failing_step": done, "mismatch": mm.desc,
+				"replay": map[string]interface{}{"inst": recOf(j.params), "pick": pick0, "acts": acts, "states": states}}
 			return res
 		}
 	}
@@ -112,22 +120,23 @@ func replayVotes(c *core.Ctx, m *model) {
 		abs := absOf[k]
 		for which := 0; which < 4; which++ {
 			p := instParamsFor(c, abs, which)
-			// the whole tour on the unit instantiation; thorough: also on the scaled prevote and on the
-			// boundary-near-2^62 instantiation; quick: those two share the tour (every second behaviour each)
+			// the whole tour on the unit instantiation; thorough: also on the boundary-near-2^62
+			// instantiation (sets of up to three validators), otherwise every second behaviour on it and on the
+			// scaled prevote one; quick: those two replay every third behaviour of the tour each
 			var seqs [][]int
 			switch {
-			case which == 0 || (c.Thorough() && which < 3):
+			case which == 0 || (c.Thorough() && which == 2 && len(abs) < 4):
 				seqs = byVec[k]
 			case which < 3:
 				for ti, t := range byVec[k] {
-					if (ti+vi+int(c.Seed))%2 == which-1 {
+					if (ti+vi+int(c.Seed))%c.Pick(3, 2) == which-1 {
 						seqs = append(seqs, t)
 					}
 				}
 			}
 			// split into chunks so that the jobs balance over the workers; the chunks of one instantiation
 			// share the record of the model states whose commit has been checked
-			const chunk = 1200
+			chunk := c.Pick(200, 1200)
 			deep := &sync.Map{}
 			for lo := 0; lo < len(seqs); lo += chunk {
 				hi := lo + chunk
@@ -261,7 +270,7 @@ func replayCommits(c *core.Ctx, m *model) {
 		sites map[string]bool
 	}
 	var jobs []cjob
-	chunk := 8000
+	chunk := c.Pick(500, 8000)
 	for _, k := range keys {
 		gr := groups[k]
 		for lo := 0; lo < len(gr.edges); lo += chunk {
@@ -270,11 +279,25 @@ func replayCommits(c *core.Ctx, m *model) {
 				hi = len(gr.edges)
 			}
 			ed := gr.edges[lo:hi]
+			// quick, and sets of four validators in the thorough tier: the scaled and the boundary
+			// instantiation take every second commit each
+			half := func(par int) []int {
+				if c.Thorough() && len(gr.abs) < 4 {
+					return ed
+				}
+				var out []int
+				for _, ei := range ed {
+					if (ei+int(c.Seed))%2 == par {
+						out = append(out, ei)
+					}
+				}
+				return out
+			}
 			// 0: unit powers, ids of real blocks, every call site; 1: scaled powers, block ids that differ
 			// in the part-set header only; 2: boundary powers near 2^62, ids of real blocks
 			jobs = append(jobs, cjob{gr.abs, ed, 0, map[string]bool{"direct": true, "fastsync": true, "validate": true, "reconstruct": true}})
-			jobs = append(jobs, cjob{gr.abs, ed, 1, map[string]bool{"direct": true, "validate": true}})
-			jobs = append(jobs, cjob{gr.abs, ed, 2, map[string]bool{"direct": true, "fastsync": true, "reconstruct": true}})
+			jobs = append(jobs, cjob{gr.abs, half(0), 1, map[string]bool{"direct": true, "validate": true}})
+			jobs = append(jobs, cjob{gr.abs, half(1), 2, map[string]bool{"direct": true, "fastsync": true, "reconstruct": true}})
 		}
 	}
 	type cres struct {
@@ -314,7 +337,13 @@ func replayCommits(c *core.Ctx, m *model) {
 				mm, names := s.replayCommit(a, n+int(c.Seed), &res.st, j.sites)
 				if mm != nil {
 					res.mm = mm
-					res.record = map[string]interface{}{"instantiation": s.in.describe(), "action": a.raw, "slots": names, "mismatch": mm.desc}
+					var sites []string
+					for st := range j.sites {
+						sites = append(sites, st)
+					}
+					sort.Strings(sites)
+					res.record = map[string]interface{}{"kind": "commit", "instantiation": s.in.describe(), "action": a.raw, "slots": names, "mismatch": mm.desc,
+						"replay": map[string]interface{}{"inst": recOf(p), "pick": n + int(c.Seed), "act": a.raw, "sites": sites}}
 					break
 				}
 			}
@@ -350,8 +379,13 @@ func replayCommits(c *core.Ctx, m *model) {
 	c.SetExtra("commit_replay", map[string]interface{}{"jobs": len(jobs), "commits_executed": tot.edges, "call_site_evaluations": tot.calls,
 		"accepted_by_verifycommit": tot.accepted, "reconstructed": tot.reconstructed, "slot_variants_used": variants})
 	if len(jobs) > 0 {
-		ei := jobs[len(jobs)-1].edges[len(jobs[len(jobs)-1].edges)/2]
-		c.Sample(map[string]interface{}{"commit_lattice_edge": m.acts[ei].raw, "instantiation": results[len(jobs)-1].name})
+		for ji := len(jobs) - 1; ji >= 0; ji-- {
+			if len(jobs[ji].edges) > 0 {
+				ei := jobs[ji].edges[len(jobs[ji].edges)/2]
+				c.Sample(map[string]interface{}{"commit_lattice_edge": m.acts[ei].raw, "instantiation": results[ji].name})
+				break
+			}
+		}
 	}
 }
 
